@@ -81,49 +81,74 @@ theorem sortInts_ne_nil (l : List Int) (h : l ≠ []) : sortInts l ≠ [] := by
 
 /-! ### mergeRuns -/
 
+theorem cntP_mergeAux (p : Int → Bool) (a : Int) (l : List Int) (recL : List Int → List Int)
+    (hrec : ∀ r, cntP p (recL r) = cntP p l + cntP p r) (r : List Int) :
+    cntP p (mergeAux a recL (a :: l) r) = cntP p (a :: l) + cntP p r := by
+  induction r with
+  | nil => simp [mergeAux]
+  | cons b r ih =>
+    simp only [mergeAux]; split
+    · simp only [cntP_cons] at ih ⊢; omega
+    · simp only [cntP_cons, hrec]; omega
+
 theorem cntP_mergeRuns (p : Int → Bool) (a b : List Int) : cntP p (mergeRuns a b) = cntP p a + cntP p b := by
-  fun_induction mergeRuns a b with
-  | case1 r => simp
-  | case2 a l => simp
-  | case3 a l b r hlt ih => simp only [cntP_cons, ih]; omega
-  | case4 a l b r hlt ih => simp only [cntP_cons, ih]; omega
+  induction a generalizing b with
+  | nil => simp [mergeRuns]
+  | cons x l ih => simp only [mergeRuns]; exact cntP_mergeAux p x l _ ih b
 
 theorem length_mergeRuns (a b : List Int) : (mergeRuns a b).length = a.length + b.length := by
   have := cntP_mergeRuns (fun _ => true) a b; simpa [cntP_true] using this
 
+theorem mem_mergeAux (x a : Int) (l : List Int) (recL : List Int → List Int)
+    (hrec : ∀ r, x ∈ recL r ↔ x ∈ l ∨ x ∈ r) (r : List Int) :
+    x ∈ mergeAux a recL (a :: l) r ↔ x ∈ a :: l ∨ x ∈ r := by
+  induction r with
+  | nil => simp [mergeAux]
+  | cons b r ih =>
+    simp only [mergeAux]; split
+    · simp only [List.mem_cons] at ih ⊢; rw [ih]; grind
+    · simp only [List.mem_cons, hrec]; grind
+
 theorem mem_mergeRuns (x : Int) (a b : List Int) : x ∈ mergeRuns a b ↔ x ∈ a ∨ x ∈ b := by
-  fun_induction mergeRuns a b with
-  | case1 r => simp
-  | case2 a l => simp
-  | case3 a l b r hlt ih =>
-    simp only [List.mem_cons, ih]
-    grind
-  | case4 a l b r hlt ih =>
-    simp only [List.mem_cons, ih]
-    grind
+  induction a generalizing b with
+  | nil => simp [mergeRuns]
+  | cons y l ih => simp only [mergeRuns]; exact mem_mergeAux x y l _ ih b
+
+theorem sorted_mergeAux (a : Int) (l : List Int) (recL : List Int → List Int)
+    (hmem : ∀ x r, x ∈ recL r ↔ x ∈ l ∨ x ∈ r)
+    (hrec : ∀ r, Sorted r → Sorted (recL r)) (hal : Sorted (a :: l)) (r : List Int) (hr : Sorted r) :
+    Sorted (mergeAux a recL (a :: l) r) := by
+  induction r with
+  | nil => simpa [mergeAux] using hal
+  | cons b r ih =>
+    simp only [Sorted, List.pairwise_cons] at hr hal
+    simp only [mergeAux]; split
+    · rename_i hlt
+      simp only [Sorted, List.pairwise_cons]
+      refine ⟨?_, ih hr.2⟩
+      intro z hz
+      rcases (mem_mergeAux z a l recL (hmem z) r).1 hz with h | h
+      · rcases List.mem_cons.1 h with rfl | h
+        · omega
+        · have := hal.1 z h; omega
+      · exact hr.1 z h
+    · rename_i hlt
+      simp only [Sorted, List.pairwise_cons]
+      refine ⟨?_, hrec _ (by simp only [Sorted, List.pairwise_cons]; exact hr)⟩
+      intro z hz
+      rcases (hmem z (b :: r)).1 hz with h | h
+      · exact hal.1 z h
+      · rcases List.mem_cons.1 h with rfl | h
+        · omega
+        · have := hr.1 z h; omega
 
 theorem sorted_mergeRuns (a b : List Int) (ha : Sorted a) (hb : Sorted b) : Sorted (mergeRuns a b) := by
-  fun_induction mergeRuns a b with
-  | case1 r => exact hb
-  | case2 a l => exact ha
-  | case3 a l b r hlt ih =>
-    simp only [Sorted, List.pairwise_cons] at ha hb ⊢
-    refine ⟨?_, ih (by simp only [Sorted, List.pairwise_cons]; exact ha) hb.2⟩
-    intro z hz
-    rcases (mem_mergeRuns z (a :: l) r).1 hz with h | h
-    · rcases List.mem_cons.1 h with rfl | h
-      · omega
-      · have := ha.1 z h; omega
-    · exact hb.1 z h
-  | case4 a l b r hlt ih =>
-    simp only [Sorted, List.pairwise_cons] at ha hb ⊢
-    refine ⟨?_, ih ha.2 (by simp only [Sorted, List.pairwise_cons]; exact hb)⟩
-    intro z hz
-    rcases (mem_mergeRuns z l (b :: r)).1 hz with h | h
-    · exact ha.1 z h
-    · rcases List.mem_cons.1 h with rfl | h
-      · omega
-      · have := hb.1 z h; omega
+  induction a generalizing b with
+  | nil => simpa [mergeRuns] using hb
+  | cons x l ih =>
+    simp only [mergeRuns]
+    have hl : Sorted l := by simp only [Sorted, List.pairwise_cons] at ha; exact ha.2
+    exact sorted_mergeAux x l _ (fun z r => mem_mergeRuns z l r) (fun r hr => ih r hl hr) ha b hb
 
 theorem mergeRuns_ne_nil_left (a b : List Int) (h : a ≠ []) : mergeRuns a b ≠ [] := by
   intro h2; have := length_mergeRuns a b; rw [h2] at this; cases a with
